@@ -99,7 +99,8 @@ pub fn sequential(rng: &mut gen::R, tables: usize, buckets: usize, style: usize,
     // (a table must pass through every fill level up to saturation)
     let full = tables * buckets * SLOTS;
     let nk = if full > 59 && full <= 1_000 && rng.gen_bool(0.35) { rng.gen_range(full / 3..full * 3 / 2 + 2) } else { rng.gen_range(1..60) };
-    let ops = ops.max((nk * 2).min(1_500));
+    // (callers that ask for a handful of operations - the Miri run - get a handful)
+    let ops = if ops < 40 { ops } else { ops.max((nk * 2).min(1_500)) };
     let keys = key_sets(rng, tables, buckets, style, nk);
     let mut model: HashMap<u64, u64> = HashMap::new(); // key -> id of the latest insert
     let (mut snap, mut count, _) = snapshot(&t);
